@@ -151,6 +151,9 @@ def run(tier):
     f = get(BD, "insert")
     if f:
         loc = fs.local_sx(f)
+        for v_ in ir.walk_expr(f):
+            if v_.get("kind") == "VarDecl" and "&" in ir.qtype(v_) and ir.ekids(v_):
+                loc[v_.get("name")] = ir.sx(ir.ekids(v_)[-1])          # a reference local is an alias of the slot it was bound to
         effects = [norm.deep_uncast(fs.subst_locals(ir.sx(s_), loc)) for s_ in ir.kids(ir.body(f)) if s_.get("kind") not in ("DeclStmt", "NullStmt", "StaticAssertDecl")]
         txt = d.text(f).replace(" ", "")
         ok = keeps = False
@@ -248,7 +251,18 @@ def run(tier):
                                             detail="(args..., udargs...)" if ok else "no call passes (args..., udargs...) in order: %s" % [ir.show(t)[:60] for t in calls][:4])
     # ---- fast dispatcher ----
     FD = "basic_fast_dispatcher"
-    f = get(FD, "resize_container")
+    # the member that makes room in one level of the table: found by what it does (it calls resize() on its container parameter), not by its name
+    f = None
+    for (cn_, fname_), fl_ in sorted(fns.items()):
+        if cn_ != FD:
+            continue
+        for cand in fl_:
+            ps_ = ir.params(cand)
+            if len(ps_) >= 2 and any(x.get("kind") in ("CallExpr", "CXXMemberCallExpr") and ir.sx(x)[0] == "call" and ir.sx(x)[1][0] == "mem" and ir.sx(x)[1][2] == "resize"
+                                      and ir.sx(x)[1][1] == ("ref", ps_[0]["name"]) for x in ir.walk_expr(ir.body(cand))):
+                f = cand
+    if f is None:
+        rep.broke("anchor %s: no member that resizes a level of the table was found" % FD)
     if f:
         # path-wise, with the size of the level, the class index and m_next_index as linear forms over their values on entry:
         # every resize must grow the level (or be the fresh-index case), and at every exit index[I] < c.size() must hold
@@ -341,6 +355,10 @@ def run(tier):
                     elif n.get("kind") == "UnaryOperator" and n.get("opcode") == "++" and norm.uncast(t[2]) in (("mem", ("this",), "m_next_index"), ("ref", "m_next_index")):
                         val["next"] = val["next"] + Lin({"": 1})
                         done_inc.add(id(n))
+                    elif n.get("kind") == "CompoundAssignOperator" and n.get("opcode") in ("+=", "-=") and norm.uncast(t[2]) in (("mem", ("this",), "m_next_index"), ("ref", "m_next_index")):
+                        dv = lv(t[3])
+                        if dv is not None:
+                            val["next"] = val["next"] + dv if n.get("opcode") == "+=" else val["next"] - dv
                     elif n.get("kind") == "BinaryOperator" and n.get("opcode") == "=":
                         lhs = norm.uncast(t[2])
                         if (lhs[0] == "ref" and lhs[1] in aliases) or (lhs[0] == "index" and norm.uncast(lhs[1]) == ("ref", iname)) or \
@@ -356,9 +374,9 @@ def run(tier):
         if nres == 0:
             rep.broke("no resize call found in resize_container")
         elif bad:
-            rep.violates("C17.fast", FD + "::resize_container", "levels only grow; index[I] < size() at exit", where=d.where(bad[0]), detail=bad[1])
+            rep.violates("C17.fast", FD + "::" + f["name"], "levels only grow; index[I] < size() at exit", where=d.where(bad[0]), detail=bad[1])
         else:
-            rep.holds("C17.fast", FD + "::resize_container", "levels only grow; index[I] < size() at exit", where=d.where(f), detail="%d path(s), %d resize event(s)" % (npaths, nres))
+            rep.holds("C17.fast", FD + "::" + f["name"], "levels only grow; index[I] < size() at exit", where=d.where(f), detail="%d path(s), %d resize event(s)" % (npaths, nres))
     from . import c17_fast
     c17_fast.rule_fast_inst(rep)
     # ---- functor dispatcher ----
@@ -367,6 +385,13 @@ def run(tier):
     if f:
         lam = [n for n in ir.walk_expr(ir.body(f)) if n.get("kind") == "LambdaExpr"]
         txt = re.sub(r"\s+", "", d.text(lam[0])) if lam else ""
+        if not lam:
+            # the wrapper may be a named functor class of the dispatcher: its call operator is the wrapper then
+            ops_ = [x for x in ir.functions(d, "operator()") if ir.is_template_pattern(d, x) and "xmultimethods" in (d.where(x) or "") and "casting_policy" in d.text(x)]
+            if ops_:
+                t_ = re.sub(r"\s+", "", d.text(ops_[0]))
+                m2 = re.search(r"operator\(\)\(([^)]*)\)", t_)
+                txt = "](" + (m2.group(1) if m2 else "") + ")" + re.sub(r"return\w+\(casting_policy", "returnfun(casting_policy", t_[t_.index("{"):] if "{" in t_ else "")
         m_ = re.search(r"\]\(B&\.\.\.(\w+),T&\.\.\.(\w+)\)", txt)
         a_, u_ = (m_.group(1), m_.group(2)) if m_ else ("args", "udargs")
         ok = ("returnfun(casting_policy<D&,B&>::cast(%s)...,%s...);" % (a_, u_)) in txt
@@ -374,11 +399,16 @@ def run(tier):
             ok = False
             txt = "the wrapper's parameters are `%s`, expected (B&... args, T&... udargs): the dispatched and the undispatched arguments must reach the handler by reference" % (
                 re.search(r"\]\(([^)]*)\)", txt).group(1) if re.search(r"\]\(([^)]*)\)", txt) else "?")
-        (rep.holds if ok else rep.violates)("C17.args", FU + "::insert", "handler wrapper", where=d.where(f),
+        if not txt:
+            rep.inconclusive("C17.args", FU + "::insert", "handler wrapper", where=d.where(f), detail="neither a lambda nor a functor class with a casting call operator was found")
+        else:
+          (rep.holds if ok else rep.violates)("C17.args", FU + "::insert", "handler wrapper", where=d.where(f),
                                             detail="fun(casting_policy<D&, B&>::cast(args)..., udargs...)" if ok else
                                             "the wrapper must call fun(casting_policy<D&, B&>::cast(args)..., udargs...); found `%s`" % txt[:160])
         got = [l for l in canon_fn(d, f) if not l.startswith("l0 :=")]
-        check(rep, "C17.args", d, f, FU + "::insert", "registers under D...", got, [["m_backend.insert(move(l0))"], ["m_backend.insert(l0)"]], "the wrapper must be registered in the backend")
+        reg_ok = any(l.strip().startswith("m_backend.insert(") for l in got)
+        (rep.holds if reg_ok else rep.violates)("C17.args", FU + "::insert", "registers under D...", where=d.where(f),
+                                                detail="m_backend.insert<D...>(wrapper)" if reg_ok else "the wrapper must be registered in the backend: found `%s`" % " ; ".join(got)[:160])
         if "insert<D...>" not in d.text(f).replace(" ", ""):
             rep.violates("C17.args", FU + "::insert", "registers under D...", where=d.where(f), detail="backend insert is not instantiated with D...")
     f = get(FU, "erase")
@@ -410,6 +440,10 @@ def run(tier):
             bad = None
             n_ok = n_fail = 0
             want_to = "visitor<T,R,%s>*" % cv
+            if not casts:
+                rep.inconclusive("C17.err", label + "::accept_impl", "visit on successful cast, else the configured catch_all", where=d.where(f),
+                                 detail="no dynamic_cast in the body (delegated to a helper): not followed")
+                continue
             if len(casts) != 1:
                 bad = "expected one dynamic_cast of the visitor, found %d" % len(casts)
             else:
@@ -479,7 +513,7 @@ def run(tier):
         rets = [x for x in ir.walk_expr(ir.body(f)) if x.get("kind") == "ReturnStmt" and ir.ekids(x)]
         rt = norm.deep_uncast(fs.subst_locals(ir.sx(ir.ekids(rets[0])[0]), loc)) if len(rets) == 1 else None
         pv = ir.params(f)[0]["name"]
-        ok = rt is not None and rt[0] == "call" and rt[1][0] == "mem" and rt[1][2] == "visit" and tuple(rt[2:]) == (("ref", pv),) and norm.deep_uncast(rt[1][1]) == ("un", "*", ("this",)) \
+        ok = rt is not None and rt[0] == "call" and rt[1][0] == "mem" and rt[1][2] == "visit" and tuple(rt[2:]) == (("ref", pv),) and norm.deep_uncast(rt[1][1]) in (("un", "*", ("this",)), ("this",)) \
             and "visitor<std::remove_const_t<V>,return_type,is_const>" in txt
         (rep.holds if ok else rep.violates)("C17.args", "cyclic_visitor::generic_visit", "selects the visitor base of the visited type", where=d.where(f),
                                             detail=ir.show(rt)[:100] if rt else "?")
